@@ -18,8 +18,16 @@ def run_scen(job):
     sc = scen.gen(job["seed"], **job["opts"])
     if job.get("diffusion"):
         sc["_D"] = job["diffusion"]
+    if job.get("vinfo"):
+        sc["rows"][0] = dict(sc["rows"][0], Z=0.0)          # a particle at the very surface
     with lab.scratch() as d:
         conf = scen.write(sc, d)
+        if job.get("vinfo"):
+            # the vertical grid described in the configuration instead of being read from the grid file
+            import glob as _glob
+            g_ = conf.get("grid") or dict(module="ladim.ROMS", filename=sorted(_glob.glob(str(d / "forcing_*.nc")))[0])
+            g_["Vinfo"] = dict(N=sc["N"], hc=0.0, theta_s=5.0, theta_b=0.4)
+            conf["grid"] = g_
         if job.get("diffusion"):
             conf["tracker"]["diffusion"] = job["diffusion"]
         if job.get("vertdiff"):
